@@ -39,7 +39,7 @@ TEXT = {
               'deductive verification (Verus) with existential postconditions + Kani float-lemma table', 'DESIGN.md 8 C03'),
     'C04': _t('Verus proves for any number of links, both modes, every configuration and packet kind: both selectors (incl. the hysteresis return) and select_connection_idx return only an uplink that is schedulable, '
               'not timed out and not stall-gated on the post-selection state; select_best_quality_idx never returns a registering, disconnected or stall-gated link; and at the single call site that routes stream data '
-              '(handle_srt_packet -> forward_via_connection, after the priority override) the chosen uplink is eligible. Duplicate probes are confined to gated links by the frame of send_stall_probes.',
+              '(handle_srt_packet -> forward_via_connection, after the priority override) the chosen uplink is eligible. Duplicate probes are confined to gated links by the frame of send_stall_probes. Also: is_schedulable is exactly "registered", is_stall_gated reads the gate flag, the gate leaves every link carrying the configured timeout at every exit, and no registration handler ever clears the session-established flag (unit reg).',
               COMMON_NOTE + ' A genuine defect found by this check (override onto gated / timed-out links) was repaired in /repo (fix: commit 6b49631).',
               'deductive verification (Verus): eligibility postconditions on the schedulers + tagged assertion at the routing call site', 'DESIGN.md 8 C04'),
     'C05': _t('Verus proves: the sequence tracker remembers a carrier exactly while the slot holds the same sequence number and is not older than 5000 ms, insert overwrites exactly one slot, remove_connection purges exactly that link; '
@@ -53,18 +53,18 @@ TEXT = {
     'C07': _t('Verus proves the registration state machine function by function for all states, indices, buffers and clock values: REG1 emitted (driver / immediate / build_reg1_for) only while no uplink '
               'is registered and none is outstanding, marks exactly that uplink outstanding with a deadline of send+4000 ms and carries the adopted id; REG2 accepted only from the outstanding uplink '
               'and only with >= 258 bytes (else whole-state identity), adopts bytes 2..258 and schedules exactly one broadcast; REG_ERR cancels; clear_pending abandons exactly when the deadline passed; '
-              'no inbound packet can make a REG1 outstanding. Packet layouts by Kani on the real builders.',
+              'no inbound packet can make a REG1 outstanding. Packet layouts by Kani on the real builders. The REG2 broadcast round is offered to every uplink that has a socket (ghost send log), housekeeping returns Err only after the global timeout of a total outage, and update_active_connections counts exactly the registered uplinks (real body, rule R12).',
               COMMON_NOTE + ' Not covered: the shell call site of build_reg1_for and "connected only on REG3" (shell unit), probing (RTT probes).',
               'deductive verification (Verus) of the extracted state machine against transition contracts', 'DESIGN.md 8 C07'),
     'C08': _t('Verus proves: the timed-out predicate is a function of (connected, last_received, timeout, establishment, grace) only - no stall/weak/loss field is an input; back-off delay in [5 s,120 s] '
               'for every failure count; an attempt is allowed only >= 1 s (initial) / >= 5 s (later) after the previous one and always once 120 s have passed (no terminal state); '
-              'every reset returns the link to window 20000, zero in-flight, Registering; REG3 clean-up enters Warming with zero in-flight.',
+              'every reset returns the link to window 20000, zero in-flight, Registering; REG3 clean-up enters Warming with zero in-flight. REG3 restarts the back-off but never the 5 s retry timer; a soft reset (mark_for_recovery) cancels an outstanding RTT probe and clears the keepalive stamps.',
               COMMON_NOTE + ' Out of reach: "connected again within 30 s" and the housekeeping loop itself (liveness over the network).',
               'deductive verification (Verus) of extracted real functions', 'DESIGN.md 8 C08'),
     'C09': _t('Verus proves for every byte string (any length) and every link state: process_uplink_packet returns Ok, forwards exactly the datagram itself (unchanged) iff it has >= 2 bytes and is not REG_NGP/REG2/REG3/REG_ERR/SRTLA-ACK/keepalive, '
               'never forwards internal ones; every non-registration datagram stamps last_received with the clock value read; delivery proof changes only for a keepalive echo answered while a probe was outstanding (or an earned SRTLA ACK in the core); '
               'connected flips to true only on REG3; the ACK/NAK/SRTLA-ACK lists handed on are exactly the parsed lists; process_connection_events sends every forwarded datagram to the client once, in order, and nothing while no client is known. '
-              'Panic freedom of the whole path (parsers, dispatcher, attribution) is a built-in obligation.',
+              'Panic freedom of the whole path (parsers, dispatcher, attribution) is a built-in obligation. Unit drain: every datagram dequeued from the reader channel (ghost FIFO model of the tokio receiver) is handled exactly once, in arrival order, on the link whose conn_id it carries; its parsed effects are handed unchanged to the event processor; empty or unknown-uplink datagrams change nothing. SRT ACK handling never touches the delivery-proof stamp. The REG2 id decode in the registration manager cannot panic on any length.',
               COMMON_NOTE + ' UdpSocket::send_to / try_send_to are stubs; delivery by the OS is not modelled.',
               'deductive verification (Verus) of extracted real functions against byte-level spec functions', 'DESIGN.md 8 C09'),
     'C10': _t('Verus proves: score == window / (in-flight + queued + 1) (saturating, integer division); the classic selector returns an eligible link of maximal score, the first such link, None only if no candidate scores >= 0; '
@@ -78,7 +78,7 @@ TEXT = {
               'deductive verification (Verus) with tagged assertions inside the loop + Kani complete harnesses for the float factors', 'DESIGN.md 8 C11'),
     'C12': _t('Verus proves for any number of links, both modes, every configuration: select_connection_idx and everything it calls (stall gate, pull and latch updates, quality cache refresh, both selectors) '
               'leave every field outside {stall flags/latches/counters, conn_timeout_ms, quality_cache} of every link unchanged (frame predicate generated from the struct definition, so new fields are in the frame by default), '
-              'and with the guard off every flag and latch is cleared.',
+              'and with the guard off every flag and latch is cleared. Each pass of the gate writes only its own fields (clauses relative to the loop-entry snapshot); ACK / NAK processing never changes a phase or a conn_id (units events, drain).',
               COMMON_NOTE, 'deductive verification (Verus): generated field-wise frame predicates carried through every callee contract', 'DESIGN.md 8 C12'),
     'C13': _t('Verus proves the one-step contracts of the stall latch and the silence pull for all states and clock values: engages only with stale proof and (backlog or held pull), never without proof on record; '
               'releases only after proof stayed fresh and the run lasted >= 2x the effective window; stale proof resets the run; the run start is only ever 0 / unchanged / now; pull releases only when heard again or disconnected; '
@@ -87,7 +87,7 @@ TEXT = {
               'deductive verification (Verus) of extracted real functions against transition contracts', 'DESIGN.md 8 C13'),
     'C14': _t('Verus proves: a keepalive is due exactly when the link is connected and none was sent or the last one is >= 1000 ms old; keepalive_packet stamps the send time, carries it as the timestamp, its telemetry equals the link state, and arms an RTT probe only when none is outstanding; '
               'an RTT sample is taken only from an echo received while a probe is outstanding, only with a parsable timestamp and 0 < RTT <= 10000 ms, and every echo consumes the probe. Kani proves on the real code: the frame is 38 bytes, its first 10 bytes are the standard keepalive, '
-              'it decodes back to the values it was built from, and the smoothed RTT is never negative (hence never NaN) for every filter state.',
+              'it decodes back to the values it was built from, and the smoothed RTT is never negative (hence never NaN) for every filter state. A soft reset cancels the outstanding probe, so an echo of a keepalive sent before the reset yields no sample.',
               COMMON_NOTE + ' Out of reach: the cadence inside the real housekeeping loop (two housekeeping periods) and "never non-finite" (Kalman stability over unbounded histories).',
               'deductive verification (Verus) + Kani complete harnesses on the real builders/decoders', 'DESIGN.md 8 C14'),
     'C18': _t('Verus proves on the real dispatch_inner, dispatch (stdin) and dispatch_async (socket; async erased) over uninterpreted serde_json/string primitives: a blank line gets no response and changes nothing; an unparsable line gets exactly one response with code -32700, no result and a null id; '
